@@ -139,6 +139,13 @@ def run(ctx: Ctx, rs: RuleSet, tier: str):
                  'path reaches the exit without logging the new tag set',
                  ctx.loc(f, e))
 
+  # ---- a deep copy gets its own history lists
+  from fdlstatic.rules import c07
+  rs.declare('FRESHC.deepcopy-history', 'Buildable.__deepcopy__ exempts '
+             'nothing mutable from copying (per-parameter history lists of '
+             'the copy are its own)', 2)
+  c07.deepcopy_memo_rules(ctx, rs, 'FRESHC.deepcopy-history')
+
   # ---- HistoryEntry construction / counter
   rule = 'WMC.history-entries'
   rs.declare(rule, 'entries are created only by the factory functions with '
@@ -246,6 +253,12 @@ def run(ctx: Ctx, rs: RuleSet, tier: str):
              'every exit of the context managers that change them', 4)
   guards = [g for g in common.thread_local_guards(ctx)
             if g.qual.startswith(H + '.')]
+  # the on/off switch is the boolean attribute (other per-thread attributes
+  # are audited by the rules that own them)
+  bool_guards = [g for g in guards if isinstance(
+      g.default, ast.Constant) and isinstance(g.default.value, bool)]
+  if len(bool_guards) == 1:
+    guards = bool_guards
   if len(guards) != 1:
     raise AnalysisError(f'expected one thread-local guard in history.py, '
                         f'found {[g.name for g in guards]}')
